@@ -22,7 +22,7 @@ def run(ctx):
         "record offsets in a layout increase strictly; batch ranges [base,last] are disjoint and increasing; an empty v2 batch is a bare header (as the log cleaner writes it)",
         "decompression of a complete payload succeeds and yields the records the producer wrote (codec dec∘enc = id; C16)",
         "deadline expiry is a boolean parameter of the model (`expired`)",
-        "generated timestamps are > 0; a stored CreateTime of exactly 0 ms is delivered as the zero time.Time: known finding D20 (corpus op fetchts)",
+        "generated timestamps are > 0; a stored CreateTime of exactly 0 ms is delivered as the zero time.Time: known finding D21 (corpus op fetchts)",
         "Safe o L: readMessageV1's loop never has to step from a v0/v1 message it skipped into a v2 batch (holds under the fetch contract, for pure v2 and pure v0/v1 layouts)",
     ]
     broken = []
@@ -46,7 +46,7 @@ def run(ctx):
         dis = ctx.correspond(lines, orc, "conn.go ReadBatch / batch.go / message_reader.go / reader.go ↔ Model/MessageSetReader.lean, Model/Batch.lean, Model/ReaderLoop.lean",
                              nontrivial=lambda op, impl: " L=-" not in op)
     ctx.coverage["rule"] = (
-        "fetchx: the fetch generator read after the batch's adjusted deadline has passed (58 cases quick / 318 thorough; out must be RequestTimedOut); fetchts: stored timestamp 0 (D20); fetch: logs of 1..6 original batches in format 2 / 1 / 0 / mixed(1 then 2), compaction modes keep-all, random holes, head holes, tail holes, "
+        "fetchx: the fetch generator read after the batch's adjusted deadline has passed (58 cases quick / 318 thorough; out must be RequestTimedOut); fetchts: stored timestamp 0 (D21); fetch: logs of 1..6 original batches in format 2 / 1 / 0 / mixed(1 then 2), compaction modes keep-all, random holes, head holes, tail holes, "
         "empty (retained bare header, sometimes dropped), whole-batch gaps, codecs none/gzip/snappy/lz4/zstd (v2) and gzip/snappy/lz4 wrappers (v0/v1), start offset anywhere "
         "in the log incl. the log end, served from the batch containing it (3/4) or from the log start, cut: none / uniform byte / within the last 70 bytes; fetch v2/v5/v10 round robin; "
         "iter: the same logs served under the fetch contract with 1..3 cycling byte budgets from {1,80,150,300,1000,2^20}+rand; "
